@@ -31,7 +31,7 @@ func init() {
 			"retention is measured as reachable idr nodes (the statement's own metric), not heap bytes; heap-in-use is reported but never decides",
 			"records of one stream have the same shape, so a correct reader shows an exactly constant size",
 		},
-		Cases: func(t core.Tier) int { return 96 },
+		Cases: func(t core.Tier) int { return 98 },
 		Run:   runC17,
 		Batch: func(t core.Tier) int { return 2 },
 		Min: func(t core.Tier) map[string]int64 {
@@ -198,8 +198,51 @@ func c17Hier(c *core.Ctx, which int) {
 	c17Monitor(c, format, mode, filter, false, []byte(schema), st, N)
 }
 
+// c17Separators: old fixed-length streams whose columns pick their line by pattern, with envelopes in between that consist of lines no
+// column pattern matches (rulers, comments): those come out as records without fields, and must not pile up either.
+func c17Separators(c *core.Ctx, hf bool) {
+	N := 5000
+	if c.Tier == core.Thorough {
+		N = 200000
+	}
+	env := `{"columns":[{"name":"id","start_pos":2,"length":6,"line_pattern":"^D"},{"name":"n","start_pos":8,"length":3,"line_pattern":"^D"}]}`
+	if hf {
+		env = `{"name":"e","by_header_footer":{"header":"^B","footer":"^E"},"columns":[{"name":"id","start_pos":2,"length":6,"line_pattern":"^D"},{"name":"n","start_pos":8,"length":3,"line_pattern":"^D"}]}`
+	}
+	schema := `{"parser_settings":{"version":"omni.2.1","file_format_type":"fixed-length"},"file_declaration":{"envelopes":[` + env +
+		`]},"transform_declarations":{"FINAL_OUTPUT":{"object":{"id":{"xpath":"id"},"n":{"xpath":"n"}}}}}`
+	st := &recStream{n: N, i: -1, next: func(i int) []byte {
+		if i < 0 || i >= N {
+			return nil
+		}
+		data := i%2 == 0
+		var sb strings.Builder
+		switch {
+		case !hf && data:
+			fmt.Fprintf(&sb, "D%-6s%03d\n", fmt.Sprintf("r%d", i%7), i%5)
+		case !hf:
+			sb.WriteString("---------- ruler ----------\n")
+		case data:
+			fmt.Fprintf(&sb, "B\nD%-6s%03d\nE\n", fmt.Sprintf("r%d", i%7), i%5)
+		default:
+			sb.WriteString("B\n# nothing here\nE\n")
+		}
+		return []byte(sb.String())
+	}}
+	mode := "separator-envelopes"
+	if hf {
+		mode += "+header-footer"
+	}
+	c.Inc("streams_with_separator_envelopes")
+	c17Monitor(c, "fixed-length", mode, "", false, []byte(schema), st, N)
+}
+
 func runC17(c *core.Ctx) {
 	r := c.R
+	if c.Idx >= 96 {
+		c17Separators(c, c.Idx == 97)
+		return
+	}
 	if c.Idx >= 84 {
 		c17Hier(c, c.Idx-84)
 		return
